@@ -133,6 +133,14 @@ listed as a finding.
   the flow of the second, accepted update ("415") and counted as "neither old nor new" for the
   first one. The second update is judged on its own (R5); its answer on /p5 is no longer held
   against the first.
+* **C08 R5 on a second update that came first** (a 30 000-run check of C08 against seeded
+  change C08n, seed 1014957, reproduced on the unchanged tree): since the instrumenter turns
+  non-waiting lock attempts into fault points (wave i), the first update can be parked in front
+  of the handler's guard; a second update started there ran to completion first (200), then the
+  first one took the guard and, being an /apply_flows, replaced the flows directory - the
+  second update's file was gone and R5 ("answered 200, so it has to be in force") fired. One
+  after the other is a legal order; the second update is no longer started while the first
+  still stands in front of the guard.
 * **C02 fixed-window child outside its parent's filter** (wave g, never committed as
   failing): with a fixed-window internal limit on `a.com/c` below a concurrency quota on
   `a.com/p` the parent's slot was not given back on the response, only at expiry: a
